@@ -139,6 +139,28 @@ def run_case(ctx, i, rng):
                     if outer and rng.random() < 0.8:
                         rng.choice(outer).connect_pin(inst.pins[pin])
             ctx.count("definitions_edited_after_instancing")
+    if i % 5 in (1, 3):
+        # sharing that sits DEEP: below the top a chain of instances that are each the only instance of their definition, and
+        # at its end a non-leaf definition used twice
+        topd = n.top_instance.reference
+        cands = [d_ for l in n.libraries for d_ in l.definitions if d_.children and d_ is not topd and d_.library is not None]
+        if cands and topd.library is not None:
+            a_ = rng.choice(cands)
+            lib_ = a_.library
+            try:
+                tag = "deep%d" % i
+                inner = lib_.create_definition(tag + "_U")
+                inner.create_child("a1", reference=a_)
+                inner.create_child("a2", reference=a_)
+                cur = inner
+                for k_ in range(rng.randint(1, 3)):
+                    nxt = lib_.create_definition("%s_X%d" % (tag, k_))
+                    nxt.create_child("only", reference=cur)
+                    cur = nxt
+                topd.create_child(tag + "_x", reference=cur)
+                ctx.count("deep_sharing_chains_planted")
+            except ValueError:
+                pass
     e0 = Elab(n, max_occ=2500)
     if e0.truncated:
         ctx.count("discarded_too_large")
